@@ -218,6 +218,19 @@ pub fn run(tier: Tier, rep: &mut Report) -> (String, String) {
         }
     });
     rep.merge(r);
+    // every char of the boundary-complete set next to ASCII text: any char-width / lead-byte dependent stepping in the
+    // string-level search (str and char patterns) must not skip a match that starts right after such a char
+    let cs: Vec<char> = if tier == Tier::Miri { char_set(tier).into_iter().step_by(15).collect() } else { char_set(tier) };
+    bounds += &format!("for every char c of the boundary-complete set ({}): haystacks [c+ab, a+c+b, c+c+a, ab+c, c] x needles [a, ab, b, c, c+a, a+c]; ", cs.len());
+    rep.merge(par_each(&cs, n_threads(tier), |c, r| {
+        let hs = [format!("{c}ab"), format!("a{c}b"), format!("{c}{c}a"), format!("ab{c}"), format!("{c}")];
+        let ns = ["a".to_string(), "ab".to_string(), "b".to_string(), c.to_string(), format!("{c}a"), format!("a{c}")];
+        for h in &hs {
+            for n in &ns {
+                one_pair(r, h.as_bytes(), n.as_bytes());
+            }
+        }
+    }));
     rep.traces = rep.transitions;
 
     // ---- labelled sampling supplement (NOT the deciding step): random longer inputs
